@@ -137,6 +137,7 @@ class StreamSpec:
         self.out_open = (kind == 'rc' and not complete) if iam == 'req' else True
         self.in_open = True if iam == 'req' else (kind == 'rc' and not complete)
         self.sent_after = []
+        self.other_open = None      # at an abnormal ending: was the other direction still open?
 
     def _both(self):
         if self.kind == 'rc' and not self.out_open and not self.in_open and not self.dead:
@@ -170,9 +171,11 @@ class StreamSpec:
                 if k == 'rs':
                     self.dead, self.why = True, 'completed-out'
         elif t == 'Error':
+            self.other_open = self.in_open
             self.dead, self.why = True, 'error-out'
         elif t == 'Cancel':
             if me == 'req':
+                self.other_open = self.out_open
                 self.dead, self.why = True, 'cancel-out'
             else:
                 self.in_open = False
@@ -185,9 +188,11 @@ class StreamSpec:
             return
         k, me = self.kind, self.iam
         if t == 'Error':
+            self.other_open = self.out_open
             self.dead, self.why = True, 'error-in'
         elif t == 'Cancel':
             if me == 'resp':
+                self.other_open = self.in_open
                 self.dead, self.why = True, 'cancel-in'
             else:
                 self.out_open = False
